@@ -203,18 +203,62 @@ func runScenario(c *core.Ctx, sc scenario, seed int64) ([]any, error) {
 	if !quiet {
 		return nil, fmt.Errorf("%s: index did not quiesce within 30s", sc.Name)
 	}
-	var recs []any
-	for _, ev := range r.Rec.Events() {
-		switch ev["ev"] {
-		case "Sample", "Closed":
-			recs = append(recs, map[string]any(ev))
-		}
-	}
+	recs := filesRecords(r.Rec.Events())
 	if copyErr != nil {
 		// a copy that fails while the index is healthy means a file it needed vanished
 		c.Violation("c12/copy-failed", fmt.Sprintf("%s: CopyTo failed during the run: %v", sc.Name, copyErr), map[string]any{"scenario": sc.Name, "seed": seed})
 	}
 	return recs, nil
+}
+
+var markOnly, mergeOutInRoot, mergeReqs int64
+
+// filesRecords projects recorded events onto the vocabulary of TraceFiles.tla.
+func filesRecords(evs []sx.Event) []any {
+	recs := []any{map[string]any{"ev": "Reset"}}
+	mergeOut := map[string]bool{}
+	for _, ev := range evs {
+		switch ev["ev"] {
+		case "Sample", "Closed":
+			recs = append(recs, map[string]any(ev))
+			if ev["ev"] == "Sample" {
+				// vacuity accounting for MergedRootFilesProtected: samples in which a merge
+				// output sits in the root protected by its ineligible mark alone
+				named := map[string]bool{}
+				if l, ok := ev["namedAny"].([]any); ok {
+					for _, f := range l {
+						named[fmt.Sprint(f)] = true
+					}
+				}
+				if l, ok := ev["root"].([]any); ok {
+					for _, f := range l {
+						if mergeOut[fmt.Sprint(f)] {
+							atomic.AddInt64(&mergeOutInRoot, 1)
+						}
+						if mergeOut[fmt.Sprint(f)] && !named[fmt.Sprint(f)] {
+							atomic.AddInt64(&markOnly, 1)
+							break
+						}
+					}
+				}
+			}
+		case "MergeRequest":
+			if fm, _ := ev["filemerge"].(bool); fm {
+				files := []any{}
+				atomic.AddInt64(&mergeReqs, 1)
+				if ids, ok := ev["new"].([]any); ok {
+					for _, id := range ids {
+						if n, ok := id.(int); ok {
+							mergeOut[fmt.Sprintf("%012x.zap", n)] = true
+							files = append(files, fmt.Sprintf("%012x.zap", n))
+						}
+					}
+				}
+				recs = append(recs, map[string]any{"ev": "MergeRequest", "files": files})
+			}
+		}
+	}
+	return recs
 }
 
 func run(c *core.Ctx) error {
@@ -300,9 +344,10 @@ func run(c *core.Ctx) error {
 				return err
 			}
 			os.RemoveAll(base)
-			for _, ev := range r.Rec.Events() {
-				if ev["ev"] == "Sample" || ev["ev"] == "Closed" {
-					m := map[string]any(ev)
+			for _, rec := range filesRecords(r.Rec.Events()) {
+				{
+					m := rec.(map[string]any)
+					ev := m
 					all = append(all, m)
 					owner = append(owner, name)
 					if ev["ev"] == "Sample" {
@@ -339,8 +384,41 @@ func run(c *core.Ctx) error {
 			c.Distinct(core.Canon([]any{m["bolt"], m["disk"], m["root"], m["readers"], m["copyheld"]}))
 		}
 	}
+	// the failed-merge schedule of ScorchDisk's MFail action
+	for k := 0; k < c.Pick(2, 6); k++ {
+		fres, err := sx.DirectedFailedMerge(c.TempDir("c12f"), c.Seed+int64(k))
+		if err != nil {
+			return err
+		}
+		name := "directed-mergefail"
+		recs := filesRecords(fres.Events)
+		c.Logf("scenario %s: %d observations, first merge introduced %d file(s), %d merge(s) failed", name, len(recs), fres.Merged, fres.FailedMerges)
+		c.AddExtra("directed_mergefail_runs", 1)
+		if fres.FailedMerges > 0 && fres.Merged > 0 {
+			c.AddExtra("directed_mergefail_runs_with_a_failed_merge_over_unrecorded_merge_outputs", 1)
+		}
+		if fres.Reopen != nil {
+			if op, _ := fres.Reopen["opened"].(bool); !op {
+				c.Violation("c12/mergefail-reopen", fmt.Sprintf("directed-mergefail: reopening after a failed merge and a purge failed: %v", fres.Reopen["err"]), map[string]any{"scenario": name, "seed": c.Seed + int64(k)})
+			} else if n, _ := fres.Reopen["count"].(int); n != 6 {
+				c.Violation("c12/mergefail-reopen", fmt.Sprintf("directed-mergefail: reopening after a failed merge and a purge found %d of 6 documents", n), map[string]any{"scenario": name, "seed": c.Seed + int64(k), "reopen": fres.Reopen})
+			}
+		}
+		for _, r := range recs {
+			all = append(all, r)
+			owner = append(owner, name)
+			m := r.(map[string]any)
+			if m["ev"] == "Sample" {
+				c.Eval(1)
+				c.Distinct(core.Canon([]any{m["bolt"], m["disk"], m["root"], m["readers"], m["copyheld"]}))
+			}
+		}
+	}
 	judge(c, "TraceFiles.cfg", all, owner)
 	judge(c, "TraceFilesReader.cfg", all, owner)
+	c.Extra("samples_with_a_merge_output_in_root_protected_by_mark_only", atomic.LoadInt64(&markOnly))
+	c.Extra("file_merges_recorded", atomic.LoadInt64(&mergeReqs))
+	c.Extra("sample_root_files_that_are_merge_outputs", atomic.LoadInt64(&mergeOutInRoot))
 	c.SetExhaustive(false)
 	return nil
 }
